@@ -24,7 +24,10 @@ RULE = ('(DAG shape up to N nodes) x (every Buildable node as the failing '
         '__str__ override, __slots__, KeyError, OSError/errno, BaseException '
         'subclasses, unsubclassable class, StopIteration, every builtin '
         'exception class) x (argument with failing repr: Exception / '
-        'BaseException; callable without __qualname__); sequences of events up '
+        'BaseException; callable without __qualname__; failing callable that '
+        'first modifies the empty / non-empty / shared containers it received); '
+        'events incl. a swallowed auto_unconfig failure followed by a nested '
+        'build; sequences of events up '
         'to a length on one thread; a case is distinct by (shape, node, '
         'exception shape, variant) and non-trivial when the failing node has '
         'a dependency or a dependant')
